@@ -396,6 +396,8 @@ def gen_cli(rng, thorough=False, scale=1):
         opts["prephasing"] = True
         pre = {}
         for name in sc.contigs:
+            if name == "chr9":
+                continue   # the read-less chromosome stays unphased in the input (its calls are passed through)
             nv = len(sc.variants[name])
             i = 0
             while i < nv:
